@@ -199,14 +199,24 @@ MODULES = {
     'C01': ['C01', 'C01Attr', 'C01Sat', 'C01Ns', 'C01Has'],
     'C03': ['C03', 'C03Wrappers'],
     'C07': ['C07', 'C07Parse'],
-    'C18': ['C18', 'C18Range'],
+    'C09': ['C09', 'C09Rx'],
+    'C10': ['C10', 'C10Rx'],
+    'C13': ['C13', 'C13Rx'],
+    'C18': ['C18', 'C18Range', 'C18Rx'],
+    'C20': ['C20', 'C20Rx'],
 }
 AUDITS = {
     'C01': ['C01', 'C01Attr', 'C01Sat', 'C01Has'],
     'C03': ['C03', 'C03Wrappers'],
     'C07': ['C07', 'C07Parse'],
-    'C18': ['C18', 'C18Range'],
+    'C09': ['C09', 'C09Rx'],
+    'C10': ['C10', 'C10Rx'],
+    'C13': ['C13', 'C13Rx'],
+    'C18': ['C18', 'C18Range', 'C18Rx'],
+    'C20': ['C20', 'C20Rx'],
 }
+# `CxxRx` modules restate the property theorems about the regular expressions REGENERATED from the source
+# (the hand-written scanners are proved equal to the regex-engine model on them in lean/SoupVerif/Refine/).
 
 
 def lean_pipeline(chk, sources, extra_targets=()):
@@ -241,6 +251,15 @@ def lean_pipeline(chk, sources, extra_targets=()):
         f = f'SoupVerif/Properties/{m}.lean'
         if f not in srcs:
             srcs.append(f)
+    # the forbidden-token grep covers the whole library (models, specs, lemmas, refinement proofs,
+    # generated terms), not only the files a property names: a `sorry` anywhere taints every theorem
+    for sub in ('Model', 'Spec', 'Lemmas', 'Refine', 'Generated', 'Properties'):
+        for dp, _dn, fns in os.walk(os.path.join(LEAN, 'SoupVerif', sub)):
+            for fn in sorted(fns):
+                if fn.endswith('.lean'):
+                    f = os.path.relpath(os.path.join(dp, fn), LEAN)
+                    if f not in srcs:
+                        srcs.append(f)
     for i, a in enumerate(audits):
         ok, theorems, problems = chk.audit(f'SoupVerif.Audit.{a}', srcs if i == 0 else [])
         theorems_all.update(theorems)
